@@ -292,3 +292,40 @@ func RandomArrays(seed int64, n int, maxLen int) [][]int {
 	}
 	return out
 }
+
+// Reused runs one sorter instance per ranker over all inputs in turn (a
+// sorter must not carry state from one call to the next): each result is
+// recorded ("sort" via "sorter-reused"), and after the following call the
+// previous array is read again ("stable": it must still be what was returned).
+type Reused struct {
+	sorters map[string]age.SorterLike[Tagged]
+	prev    map[string][]Tagged
+	prevOut map[string][][2]int
+}
+
+func NewReused() *Reused {
+	var r = &Reused{sorters: map[string]age.SorterLike[Tagged]{}, prev: map[string][]Tagged{}, prevOut: map[string][][2]int{}}
+	for _, name := range Rankers {
+		var name = name
+		r.sorters[name] = age.Sorter[Tagged]().MakeWithRanker(func(a, b Tagged) age.Rank { return rankTok(name, a.V, b.V) })
+	}
+	return r
+}
+
+func (r *Reused) Run(vals []int, emit func(SortRec), watchdog time.Duration) bool {
+	for _, name := range Rankers {
+		var arr = tagged(vals)
+		var in = pairs(arr)
+		if !guarded(func() { r.sorters[name].SortValues(arr) }, watchdog) {
+			emit(SortRec{Op: "timeout", Via: "sorter-reused", Ranker: name, Input: in, Output: [][2]int{}, Cmps: [][2]int{}})
+			return false
+		}
+		emit(SortRec{Op: "sort", Via: "sorter-reused", Ranker: name, Input: in, Output: pairs(arr), Cmps: [][2]int{}})
+		if p, ok := r.prev[name]; ok {
+			emit(SortRec{Op: "stable", Via: "sorter-reused", Ranker: name, Input: r.prevOut[name], Output: pairs(p), Cmps: [][2]int{}})
+		}
+		r.prev[name] = arr
+		r.prevOut[name] = pairs(arr)
+	}
+	return true
+}
